@@ -129,7 +129,8 @@ Definition chk_maintain (c : checker) : checker :=
             | Some f => Some f end in
   if full
   then {| cur := match f1 with Some f => f | None => new_gen (capa c1) end;   (* None: Go would install nil *)
-          fut := Some (new_gen (capa c1)); capa := capa c1; queue := [] |}
+          fut := (if rotation_creates_future then Some (new_gen (capa c1)) else None);   (* as the source does *)
+          capa := capa c1; queue := [] |}
   else {| cur := cur c1; fut := f1; capa := capa c1; queue := [] |}.
 
 Definition chk_check (x : N) (c : checker) : bool := mem_N x (g_items (cur c)).
